@@ -35,7 +35,7 @@ PROPS = {
     "C02": dict(parts=[Z("C02")], quick=24000, thorough=1200000, nontrivial=["fd_cb", "block"], level="exploration"),
     "C03": dict(parts=[Z("C03")], quick=24000, thorough=1200000, nontrivial=["fd_cb"], level="exploration"),
     "C04": dict(parts=[Z("C04", w=4), Z("C05", scen="timers")], quick=24000, thorough=1200000, nontrivial=["timer_fired", "block"], level="exploration"),
-    "C05": dict(parts=[Z("C05", scen="timers")], quick=2500, thorough=120000, nontrivial=["timer_many"], level="exploration"),
+    "C05": dict(parts=[Z("C05", scen="timers", w=3), Z("C04")], quick=2500, thorough=120000, nontrivial=["timer_many"], level="exploration"),
     "C06": dict(parts=[Z("C06")], quick=24000, thorough=1200000, nontrivial=["task_ran"], level="exploration"),
     "C07": dict(parts=[Z("C07", w=4), Z("C13", scen="pool"), Z("C19", scen="popen")], quick=24000, thorough=1200000, nontrivial=["block"], level="exploration"),
     "C08": dict(parts=[Z("C08")], quick=20000, thorough=1000000, nontrivial=["post_cross", "event_cb"], level="exploration"),
@@ -46,10 +46,10 @@ PROPS = {
     "C13": dict(parts=[Z("C13", scen="pool")], quick=12000, thorough=600000, nontrivial=["work_done"], level="exploration"),
     "C19": dict(parts=[Z("C19", scen="popen")], quick=20000, thorough=1000000, nontrivial=["popen_kill"], level="exploration"),
     "C14": dict(parts=[Z("C08", "tsan", w=3), Z("C09", "tsan", w=2), Z("C18", "tsan", w=2), Z("C12", "tsan", w=3, scen="pool"),
-                       Z("C13", "tsan", w=2, scen="pool"), Z("C10", "tsan", w=2, scen="sig"), Z("C11", "tsan", w=2, scen="wait")],
+                       Z("C13", "tsan", w=2, scen="pool"), Z("C10", "tsan", w=2, scen="sig"), Z("C11", "tsan", w=3, scen="wait")],
                 quick=9000, thorough=400000, quick_s=80, nontrivial=[],
                 nontrivial_any=["post_cross", "sim_libthreads", "sim_sigdel", "sim_reaps"], level="exploration"),
-    "C15": dict(parts=[Z("C15", mode="enum")], quick=260, thorough=12000, nontrivial=["block"], level="fault_enumeration"),
+    "C15": dict(parts=[Z("C15", mode="enum", w=4), Z("C17", scen="pump", mode="enum", w=1), Z("C09", mode="enum", w=1)], quick=260, thorough=12000, nontrivial=["block"], level="fault_enumeration"),
     "C17": dict(parts=[Z("C17", scen="pump")], quick=6000, thorough=300000, nontrivial=["pump_bytes"], level="exploration"),
     "C18": dict(parts=[Z("C18", w=4), Z("C13", scen="pool"), Z("C10", scen="sig"), Z("C11", scen="wait"), Z("C19", scen="popen"),
                        Z("C17", scen="pump"), Z("C20", scen="inot"), Z("C05", scen="timers")], quick=24000, thorough=1200000, nontrivial=["cycles"], level="exploration"),
